@@ -28,19 +28,34 @@ package loader
 // the result of match (auxiliary variable lastMatch). Which CIDR contains which address is
 // package net's business (ParseCIDR / IPNet.Contains) and is not modelled.
 // (Interfaces holding pointers are assumed to hold non-nil pointers: a global assumption of the generator.)
+// match: every well-formed prefix of the list is consulted (IPNet.Contains) with the remote's
+// IP until one contains it: parsedOK counts the prefixes ParseCIDR accepted, contCalls the
+// Contains calls, anyMatch whether one returned true, lastNet names the network just parsed.
 //@ func (p prefixFilter) match(addr *net.TCPAddr) (res bool)
+//@   ghostset parsedOK 0
+//@   ghostset contCalls 0
+//@   ghostset anyMatch 0
 //@   requires addr != nil
+//@   modifies ghost.parsedOK, ghost.contCalls, ghost.anyMatch, ghost.lastNet
+//@   after[C13] net.ParseCIDR : ghost.parsedOK = ghost.parsedOK + (ret1 != nil ? 1 : 0)
+//@   after[C13] net.ParseCIDR : ghost.lastNet = ret1
+//@   after[C13] IPNet.Contains : ghost.contCalls = ghost.contCalls + 1
+//@   after[C13] IPNet.Contains : ghost.anyMatch = (ret0 ? 1 : ghost.anyMatch)
+//@   before[C13] IPNet.Contains : arg0 == ghost.lastNet && arg1 == addr.IP
+//@   ensures[C13] res == (ghost.anyMatch == 1)
+//@   ensures[C13] !res ==> ghost.contCalls == ghost.parsedOK
 //@   loop 1 invariant 0 <= rangecount
+//@   loop 1 invariant[C13] ghost.anyMatch == 0 && ghost.contCalls == ghost.parsedOK
 
 //@ func (p prefixFilter) deny(remote net.Addr) (res bool)
-//@   modifies ghost.lastMatch
+//@   modifies ghost.lastMatch, ghost.parsedOK, ghost.contCalls, ghost.anyMatch, ghost.lastNet
 //@   after[C13] prefixFilter.match : ghost.lastMatch = (ret0 ? 1 : 0)
 //@   ensures[C13] len(p.known) < 1 ==> !res
 //@   ensures[C13] (len(p.known) >= 1 && (remote == nil || typeOf(remote) != *net.TCPAddr)) ==> res
 //@   ensures[C13] (len(p.known) >= 1 && remote != nil && typeOf(remote) == *net.TCPAddr) ==> (res == (ghost.lastMatch == 1))
 
 //@ func (p prefixFilter) allow(remote net.Addr) (res bool)
-//@   modifies ghost.lastMatch
+//@   modifies ghost.lastMatch, ghost.parsedOK, ghost.contCalls, ghost.anyMatch, ghost.lastNet
 //@   after[C13] prefixFilter.match : ghost.lastMatch = (ret0 ? 1 : 0)
 //@   ensures[C13] len(p.known) < 1 ==> res
 //@   ensures[C13] (len(p.known) >= 1 && (remote == nil || typeOf(remote) != *net.TCPAddr)) ==> !res
@@ -57,7 +72,7 @@ package loader
 //@   requires prefixAllow != nil
 //@   requires prefixDeny != nil
 //@   requires forall j int :: 0 <= j && j < len(providers) ==> providers[j] != nil
-//@   modifies ghost.sends, ghost.lastSent, ghost.admitted, ghost.pgets, ghost.admits, ghost.lastMatch, ghost.lastSecret, ghost.lastHandler, ghost.denied, ghost.allowed
+//@   modifies ghost.sends, ghost.lastSent, ghost.admitted, ghost.pgets, ghost.admits, ghost.lastMatch, ghost.lastSecret, ghost.lastHandler, ghost.denied, ghost.allowed, ghost.parsedOK, ghost.contCalls, ghost.anyMatch, ghost.lastNet
 //@   after[C13] prefixFilter.deny : ghost.denied = (ret0 ? 1 : 0)
 //@   after[C13] prefixFilter.allow : ghost.allowed = (ret0 ? 1 : 0)
 //@   before[C13] prefixFilter.deny : arg0.known == prefixDeny.known && arg1 == q.remote
